@@ -843,6 +843,71 @@ func trConvertRow(fset *token.FileSet, fd *ast.FuncDecl) (string, error) {
 	return fmt.Sprintf("Definition convert_closure : string := %s.\nDefinition convert_do : bool := %s.\nDefinition convert_typ : string := %s.\n", coqRawStr(last), doc, coqRawStr(typ)), nil
 }
 
+// ---------------------------------------------------------------- typecheck.go convertConst
+
+// trConvertConst renders the kind cases of typecheck.convertConst (how an untyped constant is
+// materialised at a basic kind: which go/constant accessor, hence how many roundings).
+func trConvertConst(path string) (string, error) {
+	fset, fds, _, err := trParseMethods(path, "convertConst")
+	if err != nil {
+		return "", err
+	}
+	fd := fds["convertConst"]
+	if fd == nil {
+		return "", fmt.Errorf("typecheck.go: method convertConst not found")
+	}
+	var rows []string
+	var ferr error
+	found := false
+	ast.Inspect(fd.Body, func(n ast.Node) bool {
+		sw, ok := n.(*ast.SwitchStmt)
+		if !ok || sw.Tag == nil || nodeText(fset, sw.Tag) != "kind" {
+			return true
+		}
+		found = true
+		for _, cc := range sw.Body.List {
+			c := cc.(*ast.CaseClause)
+			if len(c.List) == 0 {
+				continue
+			}
+			t := &trFunc{name: "convertConst", fset: fset}
+			ks, err := t.kindList(c.List)
+			if err != nil {
+				ferr = err
+				return false
+			}
+			var parts []string
+			for _, st := range c.Body {
+				parts = append(parts, nodeText(fset, st))
+			}
+			rows = append(rows, fmt.Sprintf("([%s], %s)", strings.Join(ks, "; "), coqRawStr(strings.Join(parts, "; "))))
+		}
+		return false
+	})
+	if ferr != nil {
+		return "", ferr
+	}
+	if !found {
+		return "", fmt.Errorf("typecheck.go: convertConst: no `switch kind` found")
+	}
+	return "Definition convertconst_cases : list (list rkind * string) := [\n  " + strings.Join(rows, ";\n  ") + "\n].\n", nil
+}
+
+func trParseMethods(path, name string) (*token.FileSet, map[string]*ast.FuncDecl, []string, error) {
+	fset := token.NewFileSet()
+	f, err := parser.ParseFile(fset, path, nil, 0)
+	if err != nil {
+		return nil, nil, nil, err
+	}
+	res := map[string]*ast.FuncDecl{}
+	for _, d := range f.Decls {
+		if fd, ok := d.(*ast.FuncDecl); ok && fd.Recv != nil && fd.Name.Name == name {
+			res[name] = fd
+		}
+	}
+	return fset, res, nil, nil
+}
+
 // ---------------------------------------------------------------- value.go extractors
 
 // trExtractors renders, for genValueInt/Uint/Float and vInt/vUint/vFloat, the conversion applied per kind case.
@@ -980,6 +1045,11 @@ func trOpsRender(repo string) (string, int, error) {
 		return "", 0, err
 	}
 	b.WriteString(cv)
+	cc, err := trConvertConst(filepath.Join(repo, "interp", "typecheck.go"))
+	if err != nil {
+		return "", 0, err
+	}
+	b.WriteString(cc)
 	ex, err := trExtractors(filepath.Join(repo, "interp", "value.go"))
 	if err != nil {
 		return "", 0, err
@@ -1036,6 +1106,7 @@ func trOpsSelfTest(repo string) error {
 		{"run.go", "dest(f).Set(value(f).Convert(typ))", "dest(f).Set(value(f))"},
 		{"value.go", "return v, int64(v.Uint())", "return v, int64(uint32(v.Uint()))"},
 		{"value.go", "i = uint64(v.Int())", "i = uint64(int32(v.Int()))"},
+		{"typecheck.go", "f, _ := constant.Float32Val(constant.ToFloat(c))\n\t\tv = reflect.ValueOf(f)", "f, _ := constant.Float64Val(constant.ToFloat(c))\n\t\tv = reflect.ValueOf(f).Convert(t)"},
 	}
 	dir, err := os.MkdirTemp("", "vh-trops-*")
 	if err != nil {
@@ -1044,7 +1115,7 @@ func trOpsSelfTest(repo string) error {
 	defer os.RemoveAll(dir)
 	os.MkdirAll(filepath.Join(dir, "interp"), 0o755)
 	orig := map[string]string{}
-	for _, f := range []string{"op.go", "run.go", "value.go"} {
+	for _, f := range []string{"op.go", "run.go", "value.go", "typecheck.go"} {
 		b, err := os.ReadFile(filepath.Join(repo, "interp", f))
 		if err != nil {
 			return err
